@@ -250,6 +250,27 @@ def monitorC13 (script : List Cmd) (iters : List Iter) : Option String :=
       else if !bad.isEmpty then some s!"cache-only-browse-refresh-query ty={hexOfBytes ty}"
       else none
     | _ => none
+  -- "a cache-only browse never sends a query", all queries: a daemon whose script has
+  -- `browse_cache` calls but no `browse`, no `resolve_hostname`, no `verify` and no registration
+  -- sends no query packet at all - no refresh (D23), no follow-up for an instance whose PTR came
+  -- without SRV / address (D23b); `Props.C13.cache_only_history_silent`
+  let coDaemons := (script.filterMap fun c => match c with | .browse d _ _ true => some d | _ => none).eraseDups
+  let cacheOnlyDaemonClause := coDaemons.findSome? fun d =>
+    let active := script.any fun c =>
+      match c with
+      | .browse d' _ _ false => d' == d
+      | .resolve d' _ _ _ => d' == d
+      | .verify d' _ _ => d' == d
+      | .register d' .. => d' == d
+      | _ => false
+    if active then none else
+    iters.findSome? fun it =>
+      if it.d != d then none else
+      it.tx.findSome? fun ((_, _, _, b) : Nat × Bool × String × BList) =>
+        match questionsOf b with
+        | some (false, qs, _) =>
+          some s!"cache-only-daemon-sends-query d={d} t={it.now} q={joinToks (qs.map fun ((n, t) : BList × Nat) => s!"{hexOfBytes n}:{t}")}"
+        | _ => none
   let hostClause := calls.findSome? fun ((c, k0) : Cmd × Nat) =>
     match c with
     | .resolve d ch host timeout =>
@@ -318,7 +339,7 @@ def monitorC13 (script : List Cmd) (iters : List Iter) : Option String :=
           e.1 == kb && (e.2.headD "" == "found" || e.2.headD "" == "resolved")
         if silent && replayed then some s!"records-of-a-stopped-browse-still-cached ty={hexOfBytes ty} ch={ch2}" else none
     | _ => none
-  browseClause <|> cacheOnlyClause <|> hostClause <|> forgetClause
+  browseClause <|> cacheOnlyClause <|> cacheOnlyDaemonClause <|> hostClause <|> forgetClause
 
 /-! ### C12 monitor -/
 
